@@ -4,7 +4,7 @@ TR1 (transpose dispatch), PFS1 (Min/Max vs Reverse), TR2 (constructor defaults),
 INIT / CYC-INIT (seeding), ORD2 (assembly of search_nodes / search_edges).
 """
 import re
-from .core import Obl, calls_in, callee_name, pretty, strip_payload, term_mentions, term_calls, proj_field, DIRECTED, UNDIRECTED
+from .core import Obl, calls_in, callee_name, pretty, strip_payload, unwrap_payload, term_mentions, term_calls, proj_field, DIRECTED, UNDIRECTED
 from .kernels import key_of
 
 BUILDERS = ('Bfs', 'Dfs', 'Pfs', 'Order')
@@ -216,12 +216,16 @@ def init(ctx, flavours, fams=BUILDERS, which=None):
         for bi, t, K in sites:
             why = []
             vis_arg = strip_payload(pv.of_operand(t['args'][K.vis - 1]))
-            front_arg = strip_payload(pv.of_operand(t['args'][K.front - 1]))
+            front_arg = strip_payload(pv.of_operand(t['args'][K.front - 1])) if K.front else None
             ins = [(sbi, st) for sbi, st in calls_in(b, lambda x: callee_name(x).split('::')[-1] == 'insert') if strip_payload(pv.of_operand(st['args'][0])) == vis_arg]
-            adds = [(sbi, st) for sbi, st in calls_in(b, lambda x: callee_name(x).split('::')[-1] in ('push_back', 'push_front', 'push')) if strip_payload(pv.of_operand(st['args'][0])) == front_arg and (cfg.dominates(sbi, bi))]
+            adds = [(sbi, st) for sbi, st in calls_in(b, lambda x: callee_name(x).split('::')[-1] in ('push_back', 'push_front', 'push')) if front_arg is not None and strip_payload(pv.of_operand(st['args'][0])) == front_arg and (cfg.dominates(sbi, bi))]
             ins = [(sbi, st) for sbi, st in ins if cfg.dominates(sbi, bi) or cfg.path_exists(sbi, bi)]
             # frontier seed
-            if len(adds) != 1:
+            if K.front is None and getattr(K, 'node_param', None):
+                seed = strip_payload(pv.of_operand(t['args'][K.node_param - 1]))
+                if seed != ROOT:
+                    why.append('the kernel is started at %s, not at the root' % pretty(seed))
+            elif len(adds) != 1:
                 why.append('%d frontier seeds before the kernel call' % len(adds))
             else:
                 at = pv.of_operand(adds[0][1]['args'][1])
@@ -248,7 +252,7 @@ def init(ctx, flavours, fams=BUILDERS, which=None):
             # the kernel receives self and fresh collections
             if strip_payload(pv.of_operand(t['args'][0])) != ('param', 1):
                 why.append('kernel not invoked on self')
-            for role, idx in (('visited set', K.vis), ('frontier', K.front), ('edge list', K.result)):
+            for role, idx in (('visited set', K.vis), ('frontier', K.front or 0), ('edge list', K.result)):
                 if not idx:
                     continue
                 src = strip_payload(pv.of_operand(t['args'][idx - 1]))
@@ -323,7 +327,25 @@ def result_map(ctx, flavours, fams=('Bfs', 'Dfs', 'Pfs'), which=None):
             why = []
             if K.result:
                 te, fe = cfg.bool_edges(t['dst']['l'], t['target'])
-                if te is None:
+                res_arg0 = strip_payload(pv.of_operand(t['args'][K.result - 1]))
+                me = ('call', t['res'], tuple(pv.of_operand(a) for a in t['args']), bi)
+                # accepted idiom: found.then(|| Path::from_edge_tree(edges))  (= Some(..) when true, None otherwise)
+                thens = [(cbi, ct) for cbi, ct in calls_in(b, lambda x: callee_name(x) == 'std::primitive::bool::then' or callee_name(x).endswith('bool::then') or callee_name(x) == 'bool::then')
+                         if strip_payload(pv.of_operand(ct['args'][0])) == me or (isinstance(pv.of_operand(ct['args'][0]), tuple) and pv.of_operand(ct['args'][0])[0] == 'join' and me in pv.of_operand(ct['args'][0])[1])]
+                if te is None and thens:
+                    from .core import closure_result
+                    ok_then = False
+                    for cbi, ct in thens:
+                        if not cfg.path_exists(bi, cbi):
+                            continue
+                        clo = pv.of_operand(ct['args'][1])
+                        cr = closure_result(F, clo, [])
+                        cr = unwrap_payload(cr) if cr is not None else None
+                        if isinstance(cr, tuple) and cr and cr[0] == 'call' and re.search(r'::Path::from_edge_tree$', cr[1]) and strip_payload(cr[2][0]) == res_arg0:
+                            ok_then = True
+                    if not ok_then:
+                        why.append('bool::then does not build the path from the edge tree the kernel filled')
+                elif te is None:
                     why.append('kernel result is not branched on')
                 else:
                     # on the true edge: Some(from_edge_tree(edges)) with edges = the result vector handed to the kernel
